@@ -92,6 +92,9 @@ func run(prop, tier, root, verif, tags string, seed int, f props.PropFunc) (code
 	}
 	r = an.NewReport(prop, tier, p)
 	f(r)
+	if note := props.LaterRules[prop]; note != "" {
+		r.Explanation += " " + note
+	}
 	return r.Finish(verif, seed)
 }
 
